@@ -32,12 +32,13 @@ def cmd_digests(args):
 def determinism(args):
     from checks import CHECKS
     props = [a for a in args if a in CHECKS] or sorted(CHECKS)
-    n = int(os.environ.get('VERIF_DET_SEEDS', '150'))
+    n_default = int(os.environ.get('VERIF_DET_SEEDS', '150'))
     bad = 0
     report = {}
     for prop in props:
         start = 1_000_003 + 17
         t0 = time.time()
+        n = max(4, n_default // 20) if prop == 'C15' else n_default
         a = _digests(prop, start, n)
         b = _digests(prop, start, n)
         diff_inproc = [s for s in a if a[s] != b[s]]
